@@ -1,7 +1,7 @@
 (* C09 — A torn tail of the newest WAL / value log is recovered, not surfaced (log part).
    The MANIFEST theorems of C09 (C09_manifest_truncated, C09_manifest_zero_filled) live in the
    C17 development (A/Manifest*.v) and are merged into this file by the integrator.
-   Theorem statements only.  Models: A/LogRecord.v (safeRead.Entry), A/LogIter.v (logFile.iterate);
+   Only theorem statements.  Models: A/LogRecord.v (safeRead.Entry), A/LogIter.v (logFile.iterate);
    memTable.UpdateSkipList / valueLog.open truncate the file at the returned valid end offset, so
    "iterate returns (deliveries, Done end)" is "Open succeeds, replays exactly these entries and
    cuts the file at end".  `tail_rejected img off` is the decidable statement "the first read on
@@ -37,21 +37,35 @@ Proof.
   cbv zeta. split; [symmetry; apply firstn_skipn | vm_compute; congruence].
 Qed.
 
-(* the same with the rest of the file zero-filled (mmap'd file of fixed size / lost pages), under
-   the explicit decidable hypothesis that the first read on the torn image is rejected; the only
-   way it can fail is a CRC-32C collision on that specific image (or a torn image that happens to
-   be an intact record: then nothing was damaged) *)
+(* the same with the rest of the file zero-filled (mmap'd file of fixed size / lost pages), cut at
+   ANY byte j, any amount n of zero fill: the reader never fails with an error that would make
+   Open fail, and never panics (C09_torn_no_error); and unless the torn image is itself read back
+   as a record with a matching CRC-32C (crc_accepts: a checksum collision on that specific image,
+   or a "torn" image that is in fact the intact record), exactly the units before it are delivered *)
+Theorem C09_torn_no_error : forall encrypted xs base_iv, keystream_ok xs ->
+  forall e off j n, wf_entry e ->
+  let r := safe_read encrypted xs base_iv
+             (firstn j (encode_entry encrypted xs base_iv e off) ++ repeat 0 n) off in
+  r <> RdErr /\ r <> RdPanic.
+Proof. intros encrypted xs base_iv (H1 & _). exact (safe_read_torn_no_error encrypted xs base_iv H1). Qed.
+Print Assumptions C09_torn_no_error.
+
 Theorem C09_log_zero_filled : forall encrypted xs base_iv, keystream_ok xs ->
-  forall us off e p s n, Forall wf_unit us -> off + units_size us < two32 -> wf_entry e ->
-  encode_entry encrypted xs base_iv e (off + units_size us) = p ++ s ->
-  tail_rejected encrypted xs base_iv (p ++ repeat 0 n) (off + units_size us) = true ->
-  iterate encrypted xs base_iv (encode_units encrypted xs base_iv us off ++ p ++ repeat 0 n) off
+  forall us off e j n, Forall wf_unit us -> off + units_size us < two32 -> wf_entry e ->
+  let img := firstn j (encode_entry encrypted xs base_iv e (off + units_size us)) ++ repeat 0 n in
+  crc_accepts encrypted xs base_iv img (off + units_size us) = false ->
+  iterate encrypted xs base_iv (encode_units encrypted xs base_iv us off ++ img) off
   = (unit_dels us off, Done (off + units_size us)).
 Proof.
-  intros encrypted xs base_iv (H1 & H2 & H3) us off e p s n HU B W E R.
-  exact (iterate_units_rejected_tail encrypted xs base_iv H1 H2 H3 us off _ HU B R).
+  intros encrypted xs base_iv (H1 & H2 & H3) us off e j n HU B W img A.
+  apply (iterate_units_rejected_tail encrypted xs base_iv H1 H2 H3 us off _ HU B).
+  exact (torn_rejected_unless_accepted encrypted xs base_iv H1 e _ j n W A).
 Qed.
 Print Assumptions C09_log_zero_filled.
+Example C09_log_zero_filled_ex :
+  crc_accepts false xs_id [] (firstn 13 (encode_entry false xs_id [] ex_t1 (20 + units_size ex_units)) ++ repeat 0 30)
+              (20 + units_size ex_units) = false.
+Proof. vm_compute. reflexivity. Qed.
 
 (* ... unconditionally when the cut is at a record boundary (zero fill only: the zero header
    decodes as the zero entry, its checksum is not the stored 0 / the file ends) ... *)
